@@ -368,3 +368,101 @@ def minimise(text, still_fails, max_tests=400):
     if len(toks) > 1:
         toks = ddmin(toks, lambda ts: still_fails("".join(ts)), max_tests)
     return "".join(toks)
+
+
+# ------------------------------------------------------------------------------ typed construct grid
+# Hand-written complement to the grammar-directed stream: every statement / expression form with its operand
+# slots filled by atoms of EVERY type (so mostly type-incorrect combinations), behind a prelude that declares
+# one variable per type.  This reaches the checks behind the parser that random derivations rarely pass.
+
+PRELUDE = '''class A {
+	x: int
+	constructor(self) { self.x = 1 }
+	fn getx(self) -> int { return self.x }
+	fn setx(self, v: int) { self.x = v }
+}
+i = 1
+f = 1.5
+s = "a"
+b = true
+by = 0b1
+big = B5
+l: [int...] = [1, 2]
+const ml = [1, "a"]
+m = map[str, int]{"k": 1}
+o: int? = nil
+fnv = fn(x: int) -> int { return x }
+cb = fn() { }
+ob = A()
+'''
+
+ATOMS = ["i", "f", "s", "b", "by", "big", "l", "ml", "m", "o", "fnv", "cb", "ob", "A", "self", "nil", "nosuch",
+         "1", "0", "-1", "2147483647", "2147483648", "1.5", "1f", "\"a\"", "\"\"", "true", "false", "0b1", "B5", "0x1F",
+         "[]", "[1]", "[1, \"a\"]", "[[1]]", "map[str, int]{}", "fnv(1)", "cb()", "ob.x", "ob.getx()", "ob.nosuch", "l[0]", "ml[1]",
+         "m[\"k\"]", "s[0]", "s.len()", "l.len()", "i + 1", "(i)", "typeof i", "get o", "o or 1", "fn() -> int { return 1 }",
+         "fn(x: int) { }", "A()", "l.map(fnv)", "i == 1", "!b", "-i", "-f", "s + s", "i.to_str()"]
+
+TYPES = ["int", "float", "str", "bool", "byte", "bigint", "[int...]", "[int, str]", "[]", "map[str, int]", "int?", "str?",
+         "fn(int) -> int", "fn()", "A", "Self", "nosuch", "[[int...]...]", "map[int, [str...]]", "fn(fn() -> int) -> fn()", "A?"]
+
+BINOPS = ["+", "-", "*", "/", "%", "<<", ">>", "<", ">", "<=", ">=", "==", "!=", "&&", "||", "^", "&", "|", "xor ", "?=", "is ",
+          "+=", "-=", "*=", "/=", "%="]
+
+TEMPLATES = [
+    "print {e}", "assert {e}", "return {e}", "return", "break", "continue", "{e}", "typeof {e}",
+    "v = {e}", "v: {t} = {e}", "const v = {e}", "modify i = {e}", "export v: {t} = {e}", "const v: {t} = {e}", "i = {e}", "s = {e}", "l = {e}", "o = {e}", "ob = {e}", "fnv = {e}",
+    "[p, q] = {e}", "[p, q,] = {e}", "const [p, q] = {e}",
+    "{e}[{e}] = {e}", "l[{e}] = {e}", "m[{e}] = {e}", "ml[{e}] = {e}", "s[{e}] = {e}", "{e}.x = {e}", "ob.x = {e}", "ob.nosuch = {e}", "ob.getx = {e}", "self.x = {e}", "({e}).x = {e}",
+    "if {e} {{ }}", "if {e} {{ print 1 }} else {{ print 2 }}", "if {e} {{ }} else if {e} {{ }} else {{ }}", "while {e} {{ break }}", "while {e} {{ continue }}",
+    "from {e} to {e} {{ }}", "from {e} through {e} {{ }}", "from {e} to {e} step {e} {{ }}", "from {e} to {e}, k {{ print k }}", "from {e} to {e} step {e}, i {{ }}",
+    "from {e} to {e}, s {{ }}", "from 0 to 3, nosuch2 {{ print nosuch2 }}",
+    "print {e} {op} {e}", "v = {e} {op} {e}", "i {op} {e}", "v = {e} {op} {e} {op} {e}", "print -{e}", "print !{e}", "print get {e}", "print {e} or {e}", "print typeof {e}",
+    "if {e} ?= {e} {{ }}", "print {e} is {t}", "print ({e})", "print {e}[{e}]", "print {e}[{e}][{e}]", "print {e}.len()", "print {e}.x", "print {e}.getx()", "print {e}.nosuch()",
+    "print {e}({e})", "print {e}()", "print {e}({e}, {e})", "print fnv({e})", "print cb({e})", "print ob.setx({e})", "print A({e})", "print self({e})",
+    "print [{e}, {e}]", "print [{e}, {e},]", "v: [{t}...] = [{e}]", "v: [{t}, {t}] = [{e}, {e}]", "print map[{t}, {t}]{{ {e}: {e} }}", "v = map[str, {t}]{{ \"k\": {e}, }}",
+    "v = fn(p: {t}) -> {t} {{ return {e} }}", "v = fn(p: {t}) {{ print p }}", "v = fn(p: {t}, q: {t}) -> {t} {{ return p }}", "v = fn() -> {t} {{ }}", "v = fn() {{ return {e} }}",
+    "v = fn(n: int) -> int {{ return self({e}) }}", "v = fn(n: int, k: {t}) -> int {{ return self(n, {e}) }}", "v = fn(p) {{ }}", "v = fn(p: {t}, p: {t}) {{ }}",
+    "type T {t}", "export type T {t}", "type T {t}\nv: T = {e}", "type int {t}",
+    "class C {{ y: {t} constructor(self, y: {t}) {{ self.y = y }} }}\nprint C({e}).y", "class C {{ fn f(self) -> {t} {{ return {e} }} }}", "class C {{ y: {t} }}\nprint C()",
+    "class C {{ constructor(self) {{ }} constructor(self) {{ }} }}", "class C {{ fn f() {{ }} }}", "class A {{ }}", "export class C {{ z: {t} fn g(self, q: {t}) -> Self {{ return self }} }}",
+    "class C {{ y: {t} fn f(self) {{ self.y = {e} }} }}", "class C {{ fn f(self) {{ return {e} }} }}",
+    "import nosuchfile", "import a, b from nosuchfile", "import type T from nosuchfile", "import ./x/../y",
+    "print {e}.to_str()", "print {e}.push({e})", "print {e}.map({e})", "print {e}.contains_key({e})", "print {e}.join({e})", "print {e}.pow({e})", "print {e}.index_of({e})",
+    "print {e}.remove({e})", "print {e}.substring({e}, {e})", "print {e}.parse_int()", "print {e}.keys()", "print {e}.reverse()", "print {e}.filter({e})", "print {e}.replace({e}, {e})",
+]
+
+CONTEXTS = ["{s}", "{s}", "{s}", "if b {{\n{s}\n}}", "while b {{\n{s}\nbreak\n}}", "from 0 to 2 {{\n{s}\n}}", "w = fn(a: int) -> int {{\n{s}\nreturn a\n}}",
+            "w = fn() {{\n{s}\n}}\nw()", "class K {{ fn h(self) {{\n{s}\n}} }}", "class K {{ constructor(self) {{\n{s}\n}} }}",
+            "class K {{ fn h(self, a: int) -> int {{\n{s}\nreturn a\n}} }}", "if b {{ if b {{\n{s}\n}} }}", "w = fn() {{ w2 = fn() {{\n{s}\n}} }}"]
+
+
+def typed_grid_case(rng):
+    n = rng.choice([1, 1, 1, 2, 3])
+    stmts = []
+    for _ in range(n):
+        t = rng.choice(TEMPLATES)
+        out = []
+        i = 0
+        while i < len(t):
+            if t.startswith("{e}", i):
+                out.append(rng.choice(ATOMS))
+                i += 3
+            elif t.startswith("{t}", i):
+                out.append(rng.choice(TYPES))
+                i += 3
+            elif t.startswith("{op}", i):
+                out.append(rng.choice(BINOPS))
+                i += 4
+            elif t.startswith("{{", i):
+                out.append("{")
+                i += 2
+            elif t.startswith("}}", i):
+                out.append("}")
+                i += 2
+            else:
+                out.append(t[i])
+                i += 1
+        stmts.append("".join(out))
+    body = "\n".join(stmts)
+    ctx = rng.choice(CONTEXTS).replace("{{", "\x01").replace("}}", "\x02").replace("{s}", body).replace("\x01", "{").replace("\x02", "}")
+    return PRELUDE + ctx + "\n"
